@@ -91,9 +91,9 @@ EnvLegal ==
 (* first operator for which the reference simulator is known to keep a      *)
 (* NEGATIVE Python integer where FHDL's own typing (and the Verilog) is     *)
 (* unsigned: binary minus or ~ over unsigned operands ("usub", "unot"), or  *)
-(* the negation of a signed operand ("sneg": -(-2^(n-1)) does not fit the n *)
-(* bits FHDL's typing gives it), plus the structural features mf of the     *)
-(* FHDL expression the harness recorded.                                   *)
+(* the negation / product of signed operands ("sneg", "smul": -(-2^(n-1))   *)
+(* and (-2^(n-1))^2 do not fit the bits FHDL's typing gives them), plus the *)
+(* structural features mf of the FHDL expression the harness recorded.      *)
 
 (* <<operator, consumer, context>> of the first node in pre-order that matches: q > 0: annotated node number q;  *)
 (* q = 0: unsigned-typed binary minus / ~ .  <<>> if there is none below e.  up = what consumes e, cx = context  *)
@@ -103,8 +103,10 @@ Hit(e, q, D) == IF q > 0 THEN "pi" \in DOMAIN e /\ e.pi = q
                 ELSE \/ /\ (e.a.k = "bin" /\ e.a.op = "-") \/ (e.a.k = "un" /\ e.a.op = "~")
                         /\ ~Sgn(e.a, D, Plain)
                      \/ e.a.k = "un" /\ e.a.op = "-" /\ Sgn(e.a, D, [Plain EXCEPT !.neg = TRUE])
+                     \/ e.a.k = "bin" /\ e.a.op = "*" /\ Sgn(e.a, D, [Plain EXCEPT !.neg = TRUE])
 Find(e, up, cx, q, D) ==
-  CASE e.k = "par"  -> IF Hit(e, q, D) THEN <<IF q = 0 THEN (IF e.a.k = "bin" THEN "usub" ELSE IF e.a.op = "~" THEN "unot" ELSE "sneg") ELSE OpOf(e.a), up, cx>>
+  CASE e.k = "par"  -> IF Hit(e, q, D) THEN <<IF q = 0 THEN (IF e.a.k = "bin" THEN (IF e.a.op = "-" THEN "usub" ELSE "smul")
+                                                               ELSE IF e.a.op = "~" THEN "unot" ELSE "sneg") ELSE OpOf(e.a), up, cx>>
                        ELSE Find(e.a, up, cx, q, D)
     [] e.k = "un"   -> Find(e.a, "u" \o e.op, cx, q, D)
     [] e.k = "bin"  -> LET sub == IF e.op \in RelOps \cup LogOps THEN "self<mw" ELSE cx
@@ -146,9 +148,40 @@ FindG(g, q) ==
        IN It(1)
 
 (* the causes under whose hypotheses a mismatch can disappear; a smallest explaining set is reported *)
-Causes == {"overflow", "neglit", "signedsel", "cmpsign", "caselabel"}
-Mode(S) == [all |-> "overflow" \in S, only |-> {}, neg |-> "neglit" \in S, sl |-> "signedsel" \in S,
-            cm |-> "cmpsign" \in S, cl |-> "caselabel" \in S]
+Causes == {"overflow", "neglit", "belief", "caselabel"}
+Mode(S) == [all |-> "overflow" \in S, only |-> {}, neg |-> "neglit" \in S, bel |-> "belief" \in S, cl |-> "caselabel" \in S]
+
+(* which kinds of unsigned operands hypothesis bel promotes in this record: "sel" (select), "cmp" (comparison),  *)
+(* "shift", "other" - they name the place where the back end's belief about signedness is wrong                 *)
+RECURSIVE PK(_, _, _), PKL(_, _, _, _), PKS(_, _, _), PKB(_, _, _, _)
+KindOf(x) == LET y == IF x.k = "par" THEN x.a ELSE x
+             IN IF y.k \in {"sel", "rng"} THEN "sel"
+                ELSE IF y.k = "bin" /\ y.op \in RelOps THEN "cmp"
+                ELSE IF y.k = "bin" /\ y.op \in ShiftOps THEN "shift" ELSE "other"
+(* a partner that had to be promoted, or the partner next to which the back end printed a promotion it should not have *)
+Pair(x0, y0, D, M) ==
+  LET x == Op(x0, M)
+      y == Op(y0, M)
+  IN (IF Prom(x, y, D, M) /\ ~IsWrap(x0) THEN {KindOf(x)} ELSE {}) \cup (IF Prom(y, x, D, M) /\ ~IsWrap(y0) THEN {KindOf(y)} ELSE {})
+     \cup (IF IsWrap(x0) /\ ~Prom(x, y, D, M) THEN {KindOf(y)} ELSE {}) \cup (IF IsWrap(y0) /\ ~Prom(y, x, D, M) THEN {KindOf(x)} ELSE {})
+PK(e, D, M) ==
+  CASE e.k \in {"par", "sgn"} -> PK(e.a, D, M)
+    [] e.k = "un"   -> PK(e.a, D, M) \cup (IF PromNeg(e, D, M) THEN {KindOf(e.a)} ELSE {})
+    [] e.k = "bin"  -> PK(e.a, D, M) \cup PK(e.b, D, M) \cup (IF e.op \in ShiftOps THEN {} ELSE Pair(e.a, e.b, D, M))
+    [] e.k = "cond" -> PK(e.c, D, M) \cup PK(e.a, D, M) \cup PK(e.b, D, M) \cup Pair(e.a, e.b, D, M)
+    [] e.k \in {"cat", "rep"} -> PKL(e.l, 1, D, M)
+    [] e.k = "sel"  -> PK(e.i, D, M)
+    [] OTHER -> {}
+PKL(l, i, D, M) == IF i > Len(l) THEN {} ELSE PK(l[i], D, M) \cup PKL(l, i + 1, D, M)
+PKS(s, D, M) ==
+  CASE s.k \in {"nba", "ba"} -> PK(s.r, D, M)
+    [] s.k = "if" -> PK(s.c, D, M) \cup PKB(s.t, 1, D, M) \cup (IF "f" \in DOMAIN s THEN PKB(s.f, 1, D, M) ELSE {})
+    [] s.k = "case" -> PK(s.e, D, M) \cup UNION {PKB(s.items[i].b, 1, D, M) : i \in 1..Len(s.items)}
+    [] OTHER -> {}
+PKB(b, i, D, M) == IF i > Len(b) THEN {} ELSE PKS(b[i], D, M) \cup PKB(b, i + 1, D, M)
+PromKinds(g, M) ==
+  IF g.kind = "rhs" THEN PK(g.e, g.D, M)
+  ELSE UNION {IF g.items[i].k = "assign" THEN PK(g.items[i].r, g.D, M) ELSE PKB(g.items[i].b, 1, g.D, M) : i \in 1..Len(g.items)}
 Applicable(g) == IF g.np = 0 THEN Causes \ {"overflow"} ELSE Causes
 
 Classify(g, j, i, V) ==
@@ -168,11 +201,12 @@ Classify(g, j, i, V) ==
       p == IF ovf THEN One(g.np) ELSE 0
       pc == IF p = 0 THEN <<"several", "several", "-">> ELSE FindG(g, p)
       ng == FindG(g, 0)
-  IN IF VVal(g, j, V, Plain) < 0 THEN [causes |-> {"diverges"}, producer |-> "-", consumer |-> "-", rel |-> "-", mf |-> ""]
-     ELSE IF ~r[1] THEN [causes |-> {"unexplained"}, producer |-> IF ng = <<>> THEN "-" ELSE ng[1],
+      bk == IF "belief" \in S THEN PromKinds(g, Mode(S)) ELSE {}
+  IN IF VVal(g, j, V, Plain) < 0 THEN [causes |-> {"diverges"}, bk |-> {}, producer |-> "-", consumer |-> "-", rel |-> "-", mf |-> ""]
+     ELSE IF ~r[1] THEN [causes |-> {"unexplained"}, bk |-> {}, producer |-> IF ng = <<>> THEN "-" ELSE ng[1],
                          consumer |-> IF ng = <<>> THEN "-" ELSE ng[2], rel |-> "-", mf |-> g.mf]
-     ELSE IF ovf THEN [causes |-> S, producer |-> pc[1], consumer |-> pc[2], rel |-> pc[3], mf |-> ""]
-     ELSE [causes |-> S, producer |-> "-", consumer |-> "-", rel |-> "-", mf |-> ""]
+     ELSE IF ovf THEN [causes |-> S, bk |-> bk, producer |-> pc[1], consumer |-> pc[2], rel |-> pc[3], mf |-> ""]
+     ELSE [causes |-> S, bk |-> bk, producer |-> "-", consumer |-> "-", rel |-> "-", mf |-> ""]
 
 (* one witness <<classification, <<target, env>>, number of mismatching pairs with it>> per distinct classification *)
 Witnesses(g, mm) ==
